@@ -2,8 +2,220 @@
 
 from __future__ import annotations
 
-from typing import Any
+import copy
+import random
+from typing import Any, Callable
+
+from simkfac.cases import ASSUME_TRAIN, BaseCase, _set
+from simkfac.runner import Outcome
+
+COMPONENTS_COMM = {
+    'real': ['kfac/distributed.py (TorchDistributedCommunicator, '
+             'AllreduceTensorBucket, get_triu, fill_triu)',
+             'torch._utils flatten/unflatten'],
+    'stub': ['torch.distributed (SimDist)', 'torch.futures.Future '
+             '(SimFuture)'],
+}
+
+
+def _absorb_comm(oc: Outcome, res: dict[str, Any]) -> None:
+    oc.absorb_result({'incs': [res]})
+
+
+class CommCase(BaseCase):
+    ops_key = 'calls'
+    components = COMPONENTS_COMM
+    assumptions = ASSUME_TRAIN[:2] + [
+        'tensor contents are integer valued so every expected result is '
+        'exact in the tensor dtype']
+    n_cases = {'quick': 1500, 'thorough': 40000}
+    chunk = {'quick': 25, 'thorough': 100}
+
+    def legal(self, plan: dict[str, Any]) -> bool:
+        if plan.get('kind') != 'comm':
+            return True
+        return any(c['kind'] != 'flush' for c in plan['calls'])
+
+    def shrinkers(self) -> list[Callable[[dict[str, Any]], bool]]:
+        def world2(p: dict[str, Any]) -> bool:
+            if p.get('kind') != 'comm' or p['world'] <= 2:
+                return False
+            p['world'], p['rows'] = 2, 1
+            return True
+
+        def world4(p: dict[str, Any]) -> bool:
+            if p.get('kind') != 'comm' or p['world'] <= 4:
+                return False
+            p['world'], p['rows'] = 4, 2
+            return True
+
+        def small_shapes(p: dict[str, Any]) -> bool:
+            ch = False
+            for c in p.get('calls', []):
+                if c['kind'] != 'flush' and any(s > 3 for s in c['shape']):
+                    c['shape'] = [min(s, 3) for s in c['shape']]
+                    ch = True
+            return ch
+
+        def f32(p: dict[str, Any]) -> bool:
+            ch = False
+            for c in p.get('calls', []):
+                if c['kind'] != 'flush' and c['dtype'] != 'float32':
+                    c['dtype'] = 'float32'
+                    ch = True
+            return ch
+
+        return [world4, world2, small_shapes, f32,
+                _set(['sim', 'poison'], False),
+                _set(['sim', 'policy'], 'round_robin')]
+
+    def brief(self, plan: dict[str, Any]) -> Any:
+        return plan
+
+
+class C08(CommCase):
+    pid = 'C08'
+    expected_probes = ['values_checked', 'differential_comparisons',
+                       'multi_tensor_buckets',
+                       'oversized_single_tensor_bucket', 'inflight_poison']
+    rule = ('random sequences of allreduce / broadcast / allreduce_bucketed '
+            '/ flush calls on world, row, column and singleton groups of a '
+            'random grid with a random capacity; executed as planned and '
+            'again with every bucketed call replaced by a plain allreduce; '
+            'both compared with each other and with exactly computed '
+            'integer results; per-group element accounting and bucket '
+            'partition check on the transport log; distinct = distinct '
+            'per-group collective sequence shapes')
+
+    def gen(self, rng: random.Random, tier: str) -> dict[str, Any]:
+        from simkfac import comm
+
+        return comm.gen_comm_plan(rng, tier=tier, symmetric_only=False,
+                                  mixed_dtypes=rng.random() < 0.25)
+
+    def evaluate(self, plan: dict[str, Any], tapes: Any = None) -> Outcome:
+        from simkfac import comm
+
+        oc = Outcome()
+        tapes = tapes or {}
+
+        def bad(clause: str, **d: Any) -> None:
+            props = d.pop('props', None) or [clause.split('.')[0]]
+            oc.violations.append({'clause': clause, 'props': props, **d})
+
+        a = comm.execute(plan, 'as_planned', tapes.get('A'))
+        _absorb_comm(oc, a)
+        comm.check(plan, a, 'as_planned', bad, oc.stats)
+        b = comm.execute(plan, 'plain', tapes.get('B'))
+        _absorb_comm(oc, b)
+        comm.check(plan, b, 'plain', bad, oc.stats)
+        comm.compare_modes(plan, a, b, 'C08.bucketed_vs_plain', ['C08'],
+                           bad, oc.stats)
+        oc.violations = [v for v in oc.violations if self.pid in v['props']]
+        oc.tapes = {'A': a['decisions'], 'B': b['decisions']}
+        oc.nontrivial = list(oc.shapes)
+        return oc
+
+
+class C14(CommCase):
+    pid = 'C14'
+    expected_probes = ['values_checked', 'differential_comparisons',
+                       'nonsquare_rejections', 'triu_roundtrips']
+    rule = ('symmetric allreduce / broadcast / allreduce_bucketed with '
+            'position-revealing symmetric integer matrices, executed with '
+            'symmetric=True and again dense; results identical, transport '
+            'carried n(n+1)/2 elements, non-square / non-2-D rejected '
+            'without traffic; plus an enumerated sweep of '
+            'fill_triu(get_triu(x)) == x over n and dtypes (labelled '
+            'enumeration, not simulation)')
+
+    def fixed_plans(self, tier: str) -> list[dict[str, Any]]:
+        hi = 96 if tier == 'quick' else 384
+        step = 12 if tier == 'quick' else 24
+        return [{'kind': 'triu_sweep', 'lo': lo, 'hi': min(hi, lo + step),
+                 'dtype': dt}
+                for dt in ('float32', 'float64', 'float16', 'bfloat16')
+                for lo in range(1, hi + 1, step)]
+
+    def gen(self, rng: random.Random, tier: str) -> dict[str, Any]:
+        from simkfac import comm
+
+        return comm.gen_comm_plan(rng, tier=tier, symmetric_only=True)
+
+    def evaluate(self, plan: dict[str, Any], tapes: Any = None) -> Outcome:
+        from simkfac import comm
+
+        oc = Outcome()
+        tapes = tapes or {}
+
+        def bad(clause: str, **d: Any) -> None:
+            props = d.pop('props', None) or [clause.split('.')[0]]
+            oc.violations.append({'clause': clause, 'props': props, **d})
+
+        if plan['kind'] == 'triu_sweep':
+            _triu_sweep(plan, bad, oc)
+            return oc
+        a = comm.execute(plan, 'as_planned', tapes.get('A'))
+        _absorb_comm(oc, a)
+        comm.check(plan, a, 'as_planned', bad, oc.stats)
+        b = comm.execute(plan, 'dense', tapes.get('B'))
+        _absorb_comm(oc, b)
+        comm.check(plan, b, 'dense', bad, oc.stats)
+        comm.compare_modes(plan, a, b, 'C14.symmetric_vs_dense', ['C14'],
+                           bad, oc.stats)
+        oc.violations = [v for v in oc.violations if self.pid in v['props']]
+        oc.tapes = {'A': a['decisions'], 'B': b['decisions']}
+        oc.nontrivial = list(oc.shapes)
+        return oc
+
+
+def _triu_sweep(plan: dict[str, Any], bad: Any, oc: Outcome) -> None:
+    """Enumeration: pack/unpack is the identity; 2-rank symmetric traffic."""
+    import torch
+    import kfac.distributed as kd
+
+    from simkfac import comm
+    from simkfac.models import DTYPES
+
+    dt = DTYPES[plan['dtype']]
+    for n in range(plan['lo'], plan['hi'] + 1):
+        call = {'shape': [n, n], 'dtype': plan['dtype'],
+                'symmetric_data': True, 'noncontig': False}
+        for nc in (False, True):
+            call['noncontig'] = nc
+            x = comm.make_tensor(call, n, 1)
+            packed = kd.get_triu(x)
+            y = kd.fill_triu(tuple(x.shape), packed)
+            oc.stats['triu_roundtrips'] += 1
+            if packed.numel() != n * (n + 1) // 2:
+                bad('C14.packed_size', n=n, got=packed.numel())
+            if y.dtype != dt or tuple(y.shape) != (n, n) or \
+                    not torch.equal(y, x):
+                bad('C14.roundtrip', n=n, dtype=plan['dtype'], noncontig=nc)
+        oc.nontrivial.append(f'triu:{plan["dtype"]}:{n}')
+    # the same sizes through a real send/receive on two simulated ranks
+    sizes = list(range(plan['lo'], plan['hi'] + 1))
+    calls = []
+    for n in sizes[:: max(1, len(sizes) // 4)]:
+        for kind in ('allreduce', 'broadcast', 'allreduce_bucketed'):
+            calls.append({'kind': kind, 'group': 'world', 'shape': [n, n],
+                          'dtype': plan['dtype'], 'symmetric': True,
+                          'symmetric_data': True, 'average': False,
+                          'src_pos': 1, 'noncontig': False})
+    p2 = {'kind': 'comm', 'world': 2, 'rows': 1,
+          'group_order': ['row', 'col', 'self'], 'cap_mb': 0.001,
+          'calls': calls,
+          'sim': {'policy': 'lazy', 'poison': True, 'latency': 0.0,
+                  'sched_seed': plan['lo']}}
+    a = comm.execute(p2, 'as_planned')
+    _absorb_comm(oc, a)
+    comm.check(p2, a, 'as_planned', bad, oc.stats)
+    b = comm.execute(p2, 'dense')
+    _absorb_comm(oc, b)
+    comm.compare_modes(p2, a, b, 'C14.symmetric_vs_dense', ['C14'], bad,
+                       oc.stats)
+    oc.violations = [v for v in oc.violations if 'C14' in v['props']]
 
 
 def registry() -> dict[str, Any]:
-    return {}
+    return {c.pid: c() for c in (C08, C14)}
